@@ -358,6 +358,23 @@ def lifecycle_by_interpretation(ctx, repo):
     reset_by_interpretation(ctx, repo, "I6")
 
 
+def facade_disconnect_completes(ctx, repo, rule):
+    """on the awaitable facades built for the richest pair of every platform (their update task registered but NOT yet
+    run - a reset can land in the very loop iteration that built the facade), disconnect() completes, and completes again
+    when called a second time"""
+    from ..buildmodel import disconnect_twice as _dt14
+    from ..packs import tables as _tables14
+    n14 = 0
+    for (plat_, cs_, ls_), (r_, out_) in sorted(_dt14(repo, _tables14(repo)).items()):
+        if r_ is not None:
+            continue      # a pair whose facade cannot be built is C11's finding
+        n14 += 1
+        ctx.ob(rule, f"GeckoAsyncFacade::{plat_}::disconnect-twice", out_ is None,
+               f"GeckoAsyncFacade built on ({cs_}, {ls_}): {out_} - a reset that finds the facade already disconnected once aborts before it forgets anything", repo.method("GeckoAsyncFacade", "disconnect").loc,
+               sample={"rule": rule, "platform": plat_} if plat_.startswith("inyt") else None)
+    ctx.floor(rule, "facades disconnected twice", n14, 8)
+
+
 def check(ctx):
     repo = Repo()
     cg = callgraph(repo)
@@ -421,6 +438,14 @@ def check(ctx):
             for _n in ast.walk(_f.node):
                 if isinstance(_n, ast.Attribute) and isinstance(_n.value, ast.Name) and _n.value.id == _en and _n.attr in _ec.consts and _it12._is_enum_member_name(_ec, _n.attr):
                     named.setdefault(_n.attr, loc(_f, _n))
+        # ... and the members the manager reaches through tables / helper properties kept elsewhere in the package (a
+        # frozenset of retryable errors next to the enum): every member some module of the package names as `<Enum>.<MEMBER>`
+        for _m in repo.all_mods():
+            if "/driver/packs/" in _m.rel:
+                continue
+            for _n in ast.walk(_m.tree):
+                if isinstance(_n, ast.Attribute) and isinstance(_n.value, ast.Name) and _n.value.id == _en and _n.attr in _ec.consts and _it12._is_enum_member_name(_ec, _n.attr):
+                    named.setdefault(_n.attr, f"{_m.rel}:{getattr(_n, 'lineno', 0)}")
         by_value = {}
         for _nm in sorted(named):
             _m = _it12.enum_member(_ec, _nm)
@@ -436,17 +461,7 @@ def check(ctx):
     _cpt(ctx.borrowed("I13", "C10"), repo, "R4")
 
     ctx.rule("I14", "a reset can be repeated: async_reset disconnects the facade first and forgets it last, with client callbacks awaited in between - a reset that was cancelled there, or a second reset that overlaps the first, disconnects the SAME facade again. On the awaitable facades built for the richest pair of every platform, disconnect() called twice completes twice - a disconnect that takes back its own observers one by one (list.remove) raises ValueError the second time, and that reset, and every later one, aborts on its first step: facade, spa and tasks stay, the state never returns to IDLE")
-    from ..buildmodel import disconnect_twice as _dt14
-    from ..packs import tables as _tables14
-    n14 = 0
-    for (plat_, cs_, ls_), (r_, out_) in sorted(_dt14(repo, _tables14(repo)).items()):
-        if r_ is not None:
-            continue      # a pair whose facade cannot be built is C11's finding
-        n14 += 1
-        ctx.ob("I14", f"GeckoAsyncFacade::{plat_}::disconnect-twice", out_ is None,
-               f"GeckoAsyncFacade built on ({cs_}, {ls_}): {out_} - a reset that finds the facade already disconnected once aborts before it forgets anything", repo.method("GeckoAsyncFacade", "disconnect").loc,
-               sample={"rule": "I14", "platform": plat_} if plat_.startswith("inyt") else None)
-    ctx.floor("I14", "facades disconnected twice", n14, 8)
+    facade_disconnect_completes(ctx, repo, "I14")
 
     # ---- all state assignments in the manager class ---------------------------------
     man = repo.cls(MAN)
